@@ -11,12 +11,39 @@ from runtime.bounded import Bounded
 from runtime.sig import cs_sig, repr_value
 
 KINDS = {
-    "array": "uint8 a[2];", "array2d": "uint8 a[2][2];", "nested": "struct { uint8 x; uint8 y; } a;", "anon": "struct { uint8 x; };",
+    "array": "uint8 a[2];", "array2d": "uint8 a[2][2];", "array3d": "uint16 a[2][3][2];", "structarray2d": "inner a[2][2];", "enumarray2d": "E8 a[3][2];", "nested": "struct { uint8 x; uint8 y; } a;", "anon": "struct { uint8 x; };",
     "anon2": "uint8 k; struct { uint8 x; uint8 pad[2]; }; uint8 t;", "anonunion": "union { uint16 w; uint8 h[2]; };",
     "union": "union { uint16 w; uint8 h[2]; } a;", "chararray": "char a[4];", "wchararray": "wchar a[2];", "int": "uint32 a;",
     "enum": "E8 a;", "pointer": "uint8 *a;", "structarray": "inner a[2];", "enumarray": "E8 a[2];", "float": "float a;", "dynarray": "uint8 n; uint8 a[n];",
 }
 PRE = "struct inner { uint8 ia; uint16 ib; }; enum E8 : uint8 { A = 1 };\n"
+
+
+def aliases(obj):
+    """Mutable sub-objects (lists, structures) reachable twice from one instance: cells that would change together."""
+    from dissect.cstruct.types import Structure
+
+    seen = {}
+    dup = []
+
+    def walk(v, path, depth=0):
+        if type(v).__name__ == "UnionProxy":
+            v = object.__getattribute__(v, "__target__")
+        if depth > 6 or not isinstance(v, (list, Structure)):
+            return
+        if id(v) in seen:
+            dup.append(f"{seen[id(v)]} is {path}")
+            return
+        seen[id(v)] = path
+        if isinstance(v, list):
+            for i, x in enumerate(v):
+                walk(x, f"{path}[{i}]", depth + 1)
+        elif not hasattr(type(v), "_buf"):  # members of a union are views of one buffer by design
+            for n in type(v).lookup:
+                walk(v.__dict__.get(n, getattr(v, n, None)), f"{path}.{n}", depth + 1)
+
+    walk(obj, "v")
+    return dup
 
 
 def _union_base():
@@ -93,13 +120,14 @@ def run(tier, seed):
                     cs.load(PRE + f"{container} T {{ {decl} }};", compiled=compiled)
                     T = cs.T
                     pristine = repr_value(T())
+                    dup = aliases(T())
                     x = T()
                     m = mutate(x)
                     again = repr_value(T())
                     y = T()
                     shared = any(getattr(x, n) is getattr(y, n) and isinstance(getattr(x, n), list) for n in T.fields if n in x.__dict__ or True)
-                    ok = again == pristine and not shared
-                    obs = f"after mutating one default instance a new default is {again}, pristine {pristine}; mutable field objects shared: {shared}"
+                    ok = again == pristine and not shared and not dup
+                    obs = f"after mutating one default instance a new default is {again}, pristine {pristine}; mutable field objects shared: {shared}; aliased inside one default instance: {dup[:3]}"
                 except Exception as e:  # noqa: BLE001
                     ok, obs = False, f"raises {type(e).__name__}: {e}"
                 fr.case((kind, container, compiled), ok, observed=obs, inputs={"definition": f"{container} T {{ {decl} }};", "compiled": compiled})
